@@ -23,6 +23,12 @@ func init() {
 		"regexp.Compile":          intrRegexpCompile,
 		"(*sync.Once).Do":         intrOnceDo,
 		"strconv.Quote":           intrStrconvQuote,
+		"strconv.Itoa":            intrFreshString,
+		"strconv.FormatUint":      intrFormatUint,
+		"strconv.FormatInt":       intrFreshString,
+		"strconv.FormatBool":      intrFreshString,
+		"fmt.Sprintf":             intrFreshString,
+		"strings.Repeat":          intrStringsRepeat,
 		"(*sync.RWMutex).Lock":    intrNoop,
 		"(*sync.RWMutex).Unlock":  intrNoop,
 		"(*sync.RWMutex).RLock":   intrNoop,
@@ -121,4 +127,22 @@ func intrOnceDo(f *Frame, callee *ssa.Function, args []Val, pc string, st *State
 	merged := vc.mergeStates([]string{npc, skip}, []*State{bst, st.clone()})
 	*st = *merged
 	return Val{}, vc.define("pc once.join", "Bool", or(npc, skip))
+}
+
+// fresh string result, no panic, no heap effect (fmt.Sprintf, strconv.Itoa, ...): the text is not modelled
+func intrFreshString(f *Frame, callee *ssa.Function, args []Val, pc string, st *State, ins ssa.Value) (Val, string) {
+	return Val{T: f.vc.freshConst("extstr", "Str"), Typ: callee.Signature.Results().At(0).Type()}, pc
+}
+
+// strconv.FormatUint(v, 10): the canonical decimal rendering decimal_of(v) (uninterpreted)
+func intrFormatUint(f *Frame, callee *ssa.Function, args []Val, pc string, st *State, ins ssa.Value) (Val, string) {
+	return Val{T: f.vc.define("dec", "Str", fmt.Sprintf("(decimal_of %s)", args[0].T)), Typ: callee.Signature.Results().At(0).Type()}, pc
+}
+
+// strings.Repeat(s, count): panics on a negative count (obligation); result has len(s)*count bytes
+func intrStringsRepeat(f *Frame, callee *ssa.Function, args []Val, pc string, st *State, ins ssa.Value) (Val, string) {
+	vc := f.vc
+	f.safe(pc, "repeat", posOf(ins, f), fmt.Sprintf("(>= %s 0)", args[1].T), "strings.Repeat: count is not negative")
+	r := vc.freshConst("rep", "Str")
+	return Val{T: r, Typ: callee.Signature.Results().At(0).Type()}, pc
 }
